@@ -7,11 +7,18 @@ function `mid` strictly inside its gap (`Between`) with `mid a a = a` (`MidIdem`
 mass `m` that is additive and non-negative on intervals strictly on one side of 0 (`IsMass`), every rectangle mass that
 is additive under splits at points ≠ 0 and non-negative on rectangles away from the origin (`IsBoxMass2/3`).  The axes
 of an n-d grid may have different lengths (per-axis clamp of `right_point` since /repo 56f1018).
+
+General dimension d (the generic `_mass_nd` branch: `blocks`, `intensityNd`, `rateNd`, `qTensor`, `states` are
+dimension-generic in the model): Lemmas/C01Nd*.lean prove, for every list of axes and every box mass `IsBoxMassN` (additive under
+a split of any one coordinate at a point ≠ 0, non-negative, on boxes away from the origin; `IsBoxMass2/3` and the Lebesgue
+product measure are instances), `sum_rates_eq_intensity_nd`, `rates_nonneg_nd`, and the combinatorial core
+`nonorigin_state_in_exactly_one_block` / `block_states` / `blocks_length` (the 3^d − 1 blocks partition the non-origin states).
 -/
 import RpylibModel.Proofs.Lemmas.C01Basic
 import Mathlib.Algebra.BigOperators.Field
 import RpylibModel.Proofs.Lemmas.C01Box
 import RpylibModel.Proofs.Lemmas.C01Step
+import RpylibModel.Proofs.Lemmas.C01NdPartition
 
 set_option linter.dupNamespace false
 set_option linter.unusedVariables false
@@ -743,6 +750,35 @@ theorem after_refine_3d (mid : ℚ → ℚ → ℚ) (hm : Between mid) (hi : Mid
       intensityNd mid [refineN mid k ax1, refineN mid k ax2, refineN mid k ax3] (2 ^ k * o) (box3 m) := by
   exact qTensor_sum_eq_intensity_3d mid hm hi _ _ _ _ (refineN_axisOK mid hm k ax1 o hax1)
     (refineN_axisOK mid hm k ax2 o hax2) (refineN_axisOK mid hm k ax3 o hax3) m hM
+
+/-! ### general dimension d -/
+
+/-- **any dimension, after k refinements of every axis**: the list of all per-state rates sums to the intensity -/
+theorem after_refine_nd (mid : ℚ → ℚ → ℚ) (hm : Between mid) (hi : MidIdem mid) (axes : List (List ℚ)) (o : ℕ)
+    (hax : ∀ ax ∈ axes, AxisOK ax o) (m : Box → ℚ) (hM : IsBoxMassN m) (k : ℕ) :
+    (qTensor mid (axes.map (refineN mid k)) (2 ^ k * o) m).sum = intensityNd mid (axes.map (refineN mid k)) (2 ^ k * o) m := by
+  apply sum_rates_eq_intensity_nd mid hm hi _ _ _ m hM
+  intro ax' h'
+  obtain ⟨ax, hmem, rfl⟩ := List.mem_map.mp h'
+  exact refineN_axisOK mid hm k ax o (hax ax hmem)
+
+/-- the d = 2 statement `qTensor_sum_eq_intensity_2d` is the instance `box2 m` of the general one -/
+theorem qTensor_sum_eq_intensity_2d_from_nd (mid : ℚ → ℚ → ℚ) (hm : Between mid) (hi : MidIdem mid) (ax1 ax2 : List ℚ) (o : ℕ)
+    (hax1 : AxisOK ax1 o) (hax2 : AxisOK ax2 o) (m : ℚ → ℚ → ℚ → ℚ → ℚ) (hM : IsBoxMass2 m) :
+    (qTensor mid [ax1, ax2] o (box2 m)).sum = intensityNd mid [ax1, ax2] o (box2 m) :=
+  sum_rates_eq_intensity_nd mid hm hi [ax1, ax2] o
+    (by intro ax h; simp only [List.mem_cons, List.not_mem_nil, or_false] at h; rcases h with rfl | rfl <;> assumption)
+    (box2 m) (isBoxMassN_box2 m hM)
+
+/-- concrete run in d = 4 (axes of lengths 3, 5, 3, 4 under the Lebesgue product measure): 179 non-origin cells, 80 blocks -/
+example : (qTensor amid [[-1, 0, 1], [-1, 0, 1, 2, 4], [-1, 0, 2], [-1, 0, 1, 5]] 1 lebesgueBox).sum =
+    intensityNd amid [[-1, 0, 1], [-1, 0, 1, 2, 4], [-1, 0, 2], [-1, 0, 1, 5]] 1 lebesgueBox ∧
+    (blocks amid [[-1, 0, 1], [-1, 0, 1, 2, 4], [-1, 0, 2], [-1, 0, 1, 5]] 1).length = 80 := by
+  refine ⟨sum_rates_eq_intensity_nd amid amid_between amid_idem _ 1 ?_ _ lebesgueBox_isBoxMassN, by rw [blocks_length]; rfl⟩
+  intro ax h
+  simp only [List.mem_cons, List.not_mem_nil, or_false] at h
+  rcases h with rfl | rfl | rfl | rfl <;>
+    exact ⟨by simp [StrictInc] <;> norm_num, by norm_num, by simp, by simp [pt]⟩
 
 /-! ### non-vacuity: instances of every hypothesis, and what fails without them -/
 
